@@ -395,45 +395,47 @@ def retired_namesake_skipped(P, R, rule='C17.GRD.4'):
     accept this client" is answered from the first entry whose name matches without regard to case - so an entry that
     is no longer configured answers for nobody: it is in the table only because some OTHER client still waits for it (so
     whether it is there at all depends on the other clients' traffic), and a fresh daemon on the current file has no
-    such service.  In the exported lookup, every return reached under a name match comes after a test that the entry is
-    configured."""
+    such service.  In the exported lookup, no path leaves the function having matched an entry's name without having
+    found that entry configured (before or after the match; going on to the next entry forgets both)."""
     n = 0
     for f in P.unit_fns('modules/iauth_xquery.c'):
         if f.static or not any(p_['t'].startswith('const char') for p_ in f.param_info):
             continue
-        rets = []
-        for s in f.sites():
-            if s.ev['k'] != 'ret':
-                continue
-            gs = f.guards(s.bid)
-            if any(isinstance(g[0], dict) and g[0].get('k') == 'callref' and g[0].get('callee') in ('strcasecmp', 'strcmp', 'irccasecmp') and g[1] == '==' and const_of(g[2]) == 0
-                   and any(x.get('k') == 'mem' and x.get('field') == 'name' for a in g[0].get('args', ()) for x in walk(a)) for g in gs):
-                rets.append(s)
-        if not rets:
+
+        def name_match(r):
+            l, op, rr = r
+            return isinstance(l, dict) and l.get('k') == 'callref' and l.get('callee') in ('strcasecmp', 'strcmp', 'irccasecmp') and op == '==' and const_of(rr) == 0 \
+                and any(x.get('k') == 'mem' and x.get('field') == 'name' for a in l.get('args', ()) for x in walk(a))
+        edges = [e for b in f.reachable_blocks() for e in f.out[b] if e.rel() and name_match(e.rel())]
+        if not edges:
             continue
 
         def on_edge(st, e):
-            if st:
-                return st
             r = e.rel()
             if not r:
                 return st
+            m, c = st
             l, op, rr = r
+            if name_match(r):
+                m = True
             if isinstance(l, dict) and l.get('k') == 'mem' and l.get('field') == 'configured' and op == '!=' and const_of(rr) == 0:
-                return True
-            return st
+                c = True
+            return (m, c)
 
         def on_event(st, t):
             # the next entry: what was learned about the previous one is void
             if t.ev['k'] == 'store' and is_var(t.ev.get('lhs')) and any(x.get('k') == 'mem' and x.get('field') == 'vec' for x in walk(t.ev.get('rhs') or {})):
-                return False
+                return (False, False)
+            # ... and so it is when the walk steps on (the last entry passed over leaves nothing behind either)
+            if t.ev['k'] == 'store' and is_var(t.ev.get('lhs')) and t.ev.get('op') in ('++', '+='):
+                return (False, False)
             return st
-        before, _, _, _ = f.forward(False, on_event, on_edge)
-        for s in rets:
-            sts = before.get(s.key, set())
-            n += 1
-            R.ob(rule, bool(sts) and all(sts), s, 'an entry whose name matches answers only while it is configured (a retired entry - a namesake spelled differently before a reload, or one kept by another client\'s pending query - is passed over)', key='namesake:%s' % f.name)
-    R.floor(rule, 3, 'returns of the exported service lookup under a name match')
+        _, at_exit, _, _ = f.forward((False, False), on_event, on_edge)
+        bad = [st for st in at_exit if st[0] and not st[1]]
+        n += len(edges)
+        R.ob(rule, bool(at_exit) and not bad, f, 'an entry whose name matches answers only while it is configured (a retired entry - a namesake spelled differently before a reload, or one kept by another client\'s pending query - is passed over): %d name test(s) in %s, %s' % (
+            len(edges), f.name, 'a path leaves with a match on an entry never found configured' if bad else 'every path out of a match has found the entry configured'), key='namesake:%s' % f.name)
+    R.floor(rule, 1, 'exported service lookups with a name test')
 
 
 def run(P, R, tier):
